@@ -446,7 +446,7 @@ def obj_expr():
         ("procrustes_alignment($s, $t, rotation=$r, allow_mirror=$m)", "(⟨e.procrustes {r} {m} {s} {t}⟩ : Hom)"),
         ("optimal_rotation_matrix($s, $t, allow_mirror=$m)", "e.rotationOf {m} {s} {t}"),
         # `target.centre() - source.centre()`, `target.norm() / source.norm()`: the operands may be hoisted into locals
-        ("$x.centre()", "(CentreOf.mk {x})"),
+        ("$x.centre()", "(CentreOf.mk {x})"),       # (distinct projections `.c` / `.n`: a centre is not a norm)
         ("$x.norm()", "(NormOf.mk {x})"),
         # remembered options; matrices
         ("$x.rotation", "attrFlag {x}.rotation genDefault_procrustes_rotation"),
@@ -470,10 +470,11 @@ def obj_stmt():
         ("$s._h_matrix = None", "s", "{s}.setH eye"),
         ("$s._h_matrix = $v", "s", "{s}.setH {v}"),
         # in-place writes into the matrix an object holds
-        ("$s.h_matrix[:-1, -1] = $v", "s", "{s}.setH (setLastCol (e.nDims {s}.source) {v} {s}.h)"),
-        ("$s._h_matrix[:-1, :-1] = $v", "s", "{s}.setH (setBlock (e.nDims {s}.source) {v} {s}.h)"),
-        ("np.fill_diagonal($s.h_matrix, $v)", "s", "{s}.setH (fillDiag (e.nDims {s}.source) {v} {s}.h)"),
-        ("$s.h_matrix[-1, -1] = 1", "s", "{s}.setH (setCorner (e.nDims {s}.source) {s}.h)"),
+    ] + [r for attr in ("h_matrix", "_h_matrix") for r in (
+        ("$s.%s[:-1, -1] = $v" % attr, "s", "{s}.setH (setLastCol (e.nDims {s}.source) {v} {s}.h)"),
+        ("$s.%s[:-1, :-1] = $v" % attr, "s", "{s}.setH (setBlock (e.nDims {s}.source) {v} {s}.h)"),
+        ("np.fill_diagonal($s.%s, $v)" % attr, "s", "{s}.setH (fillDiag (e.nDims {s}.source) {v} {s}.h)"),
+        ("$s.%s[-1, -1] = 1" % attr, "s", "{s}.setH (setCorner (e.nDims {s}.source) {s}.h)"))] + [
         # ... and into a local array (arrays of an alignment have the dimension of its source)
         ("$h[:-1, -1] = $v", "h", "setLastCol %s {v} {h}" % D),
         ("np.fill_diagonal($h, $v)", "h", "fillDiag %s {v} {h}" % D),
@@ -539,7 +540,10 @@ NP_EXPR = [
     ("$x.target.points[$x.trilist]", "np.take (np.pts {x}.target) {x}.source"),
     ("barycentric_vectors($x.source.points, $x.trilist)", "np.bary (np.pts {x}.source) {x}.source"),
     ("$x.kernel.apply($p)", "np.kernel ({x}.kernel.getD 0) {p}"),
-    ("R2LogR2RBF($x.points)", "(some 0)"),
+    # kernel 0 = the `R2LogR2RBF` the constructor makes when none is given, CENTRED ON THE SOURCE it is given: the
+    # model's kernels are numbers, so the centre is fixed by the pattern (another centre has no rule)
+    ("R2LogR2RBF(source.points)", "(some 0)"), ("R2LogR2RBF(self.source.points)", "(some 0)"),
+    ("R2LogR2RBF(self._source.points)", "(some 0)"),
     ("isinstance($x, TriMesh)", "np.isTriMesh {x}"),
     ("TriMesh($x.points)", "np.triMesh {x}"),
     ("$a.T.copy()", "np.tr {a}"), ("$a.T", "np.tr {a}"),
@@ -573,8 +577,8 @@ def paren(rules):
 
 def obj_rules(cl, end=".ok {self}", ret=".ok ({e})", scratch=(), extra_expr=(), extra_stmt=(), sub=False, drop=()):
     expr = list(extra_expr) + NP_EXPR + obj_expr()
-    binop = {ast.Sub: "(np.sub {a} {b})" if sub else "(e.translationOf ({b}).p ({a}).p)",
-             ast.Div: "(e.scaleOf ({b}).p ({a}).p)"}
+    binop = {ast.Sub: "(np.sub {a} {b})" if sub else "(e.translationOf ({b}).c ({a}).c)",
+             ast.Div: "(e.scaleOf ({b}).n ({a}).n)"}
     return RulesX(expr=paren(expr), stmt=list(extra_stmt) + NP_STMT + obj_stmt() + init_stmt(cl), raise_=None,
                   raise_by=EXC, end=end, ret=ret, scratch=scratch, binop=binop, drop=drop,
                   nonnull=("$x.target", "$x._target", "$x.source", "$x._source"))
@@ -615,9 +619,14 @@ structure Hom where
 /-- `x.centre()` / `x.norm()`, by the point set (the model's fits take the point sets: `target.centre() -
 source.centre()` is `translationOf source target`, `target.norm() / source.norm()` is `scaleOf source target`) -/
 structure CentreOf (Pts : Type) where
-  p : Pts
+  c : Pts
 structure NormOf (Pts : Type) where
-  p : Pts
+  n : Pts
+
+/-- an array the object owns: the result of `a.copy()` / of a computation that allocates (`_h_matrix_pseudoinverse()`).
+`HomogFamilyAlignment.copy / pseudoinverse` must bind `_h_matrix` to such a value: a dropped `.copy()` does not type-check -/
+structure Owned where
+  m : Mat
 """
 
 FOOTER = "\nend MenpoModel.Generated.C08\n"
@@ -929,15 +938,18 @@ def edit_items(cl):
         items.append((name, sig, thunk, stub))
 
     copy_expr = [("$s.__class__.__new__($s.__class__)", "(blank {s}.cls {s}.source {s}.target : Obj Pts A)"),
-                 ("$x._h_matrix.copy()", "{x}.h"),
+                 ("$x._h_matrix.copy()", "(Owned.mk {x}.h)"), ("$x.h_matrix.copy()", "(Owned.mk {x}.h)"),
                  ("$s.copy()", "genCopy {s}"),
-                 ("$s._h_matrix_pseudoinverse()", "inv {s}.h"),
-                 ("type($x.kernel)($y.points)", "{x}.kernel"),
-                 ("ThinPlateSplines($s, $t, kernel=$k, min_singular_val=$m)",
-                  "genInit_ThinPlateSplines np e (blank .tps {s} {t}) {s} {t} {k} {m}", "bind"),
+                 ("$s._h_matrix_pseudoinverse()", "(Owned.mk (inv {s}.h))"),
+                 # the inverse's kernel: same kind, re-centred on the inverse's source = our target (only that centre
+                 # has a rule; the constructor call below must then make that point set the source)
+                 ("type($x.kernel)($x.target.points)", "{x}.kernel"), ("type($x.kernel)($x._target.points)", "{x}.kernel"),
+                 ("ThinPlateSplines($x.target, $x.source, kernel=$k, min_singular_val=$m)",
+                  "genInit_ThinPlateSplines np e (blank .tps {x}.target {x}.source) {x}.target {x}.source {k} {m}", "bind"),
                  ("np.dot($a.h_matrix, $b.h_matrix)", "mulMat (e.nDims {self}.source) {a}.h {b}.h"),
                  ("np.size($p)", "(1)")]
     copy_stmt = [("$n.__dict__ = $s.__dict__.copy()", "n", "{s}"),
+                 ("$s._h_matrix = $v", "s", "{s}.setH ({v}).m"),       # (in copy / pseudoinverse: an owned array only)
                  ("Similarity._from_vector_inplace($s, $p)", "s", "{s}.setH {p}"),
                  ("Translation._from_vector_inplace($s, $p)", "s", "genFromVector_Translation e {s} {p}"),
                  ("UniformScale._from_vector_inplace($s, $p)", "s", "genFromVector_UniformScale e {s} {p}", "bind")]
@@ -1016,7 +1028,7 @@ def gpa_rules(cl, target_given, end=".ok {self}", ret=".ok ({e})"):
         ("$t.aligned_source()", "genAlignedSource e {t}"),
         ("scale_about_centre($c, $r)", "gk.scaleAbout {c} {r}"),
         ("np.linalg.norm($a.points - $b.points)", "gk.dist {a} {b}"),
-        ("$d < 1e-6", "gk.below {d}"),
+        ("$d < 1e-6", "gk.below {d}"), ("1e-6 > $d", "gk.below {d}"),
         ("$s._recursive_procrustes()", "genRecursiveProcrustes np e gk fuel {s}", "bind"),
     ]
     fld = [("n_sources", "nSources"), ("n_points", "nPoints"), ("n_dims", "nDims"), ("sources", "sources"),
